@@ -154,10 +154,19 @@ def mutate_line(line, op_id, nxt_op):
         return mk(args=args + ['x'] * 25)
     if k == 17:
         return mk(op=op + '.b') if '.' not in op else mk(op=op.split('.')[0] + '.zz')
+    if k == 18:
+        # an operand longer than any fixed-size string buffer (1024): a long formula in the first position
+        return mk(args=['+'.join(['1'] * 600)] + args[1:])
+    if k == 19:
+        # ... and a long identifier in the last position
+        return mk(args=args[:-1] + ['zz' + 'q' * 1100]) if args else mk(args=['zz' + 'q' * 1100])
+    if k == 20:
+        # the faulty operand far to the right (column > 1024): position markers and messages have to cope
+        return '%s\t%s\t%s%s' % (lab, op, ' ' * 1500, ','.join(args + ['undefined_symbol_zz']))
     return None
 
 
-N_MUT_OPS = len(BOUNDARY_NUMS) + 18
+N_MUT_OPS = len(BOUNDARY_NUMS) + 21
 STRIDE = 12
 
 
@@ -297,6 +306,13 @@ C_TEMPLATES = [
     '\tcharset\t{c},255,0\n\tbyt\t"a"\n',
     '\tcharset\t255,{c}\n',
     'x\tequ\tlab[parent{c}]\n',
+    # faults far to the right and very long operands
+    '\tbyt\t' + '1+' * 1500 + 'undefsym{c}\n',
+    '\tbyt\t' + ' ' * 3000 + 'undefsym{c}\n',
+    '\tbyt\t1,' + ' ' * 1100 + '"unterminated{c}\n',
+    ' ' * 2000 + 'bogusinstruction{c}\t1\n',
+    'm\tmacro\tp\n\tbyt\t' + ' ' * 1500 + 'p\n\tendm\n\tm\tundefsym{c}\n',
+    '\tdb\t{c} dup (' + '1+' * 600 + '1)\n',
     # body lines whose TABs / control characters are rewritten when the body is stored
     'm\tmacro\n\tbyt\t1' + '\t' * 300 + ',{c}\n\tendm\n\tm\n',
     '\tirp\tq,1,2\n\tbyt\tq' + '\t' * 300 + ',{c}\n\tendm\n',
@@ -646,6 +662,15 @@ NO_TERM_RE = re.compile(r'\b(while|macro|rept|irp|irpn|irpc|dup|include|function
 ASL_ENV_NOCLAIM = {'ASL_VERIF_MAX_LINES': str(min(LINE_BUDGET, 300000)), 'ASL_VERIF_MAX_PASSES': str(PASS_CAP)}
 
 
+# message/report options that change how a diagnostic is rendered (position markers, GNU format, numbers, listing)
+OPT_VARIANTS = [[], ['-x'], ['-x', '-x'], ['-gnuerrors', '-x'], ['-n', '-x', '-x'], ['-L'], ['-x', '-L', '-u', '-C'], []]
+
+
+def opt_variant(tag):
+    import zlib
+    return OPT_VARIANTS[zlib.crc32(tag.encode('latin-1', 'replace')) % len(OPT_VARIANTS)]
+
+
 def run_asl(ctx, src_name, flags=(), cwd=None, claim=True):
     # (no termination claim: an expiry is neither judged nor worth a second, longer run)
     return ctx.run('asl', [src_name, '-o', 'x.p'] + list(flags) + ['-q'], env=ASL_ENV if claim else ASL_ENV_NOCLAIM, cwd=cwd,
@@ -672,7 +697,7 @@ def case_a(ctx, member):
     if not muts:
         out.obs['a_members_without_applicable_line'] += 1
         return
-    flags = list(prog.flags) + ['-i', corpus.include_dir()]
+    flags = list(prog.flags) + ['-i', corpus.include_dir()] + opt_variant('A:%s:%d:%d' % (name, op_id, off))
     active = dict(muts)
     rounds = 0
     while active and rounds < 8:
@@ -718,7 +743,7 @@ def case_a(ctx, member):
 def case_small(ctx, member, text, tag, claim=True, stdin=None):
     out = ctx.out
     ctx.write('s.asm', text)
-    r = ctx.run('asl', ['s.asm', '-o', 'x.p', '-q'], env=ASL_ENV if claim else ASL_ENV_NOCLAIM, timeout=20 if claim else 40, retry=claim,
+    r = ctx.run('asl', ['s.asm', '-o', 'x.p'] + opt_variant(tag) + ['-q'], env=ASL_ENV if claim else ASL_ENV_NOCLAIM, timeout=20 if claim else 40, retry=claim,
                 stdin=b'' if stdin is None else stdin)
     if r.timed_out and claim and len(text) < 4096 and getattr(r, 'cpu', 0) < 30:
         # the process did not get the processor for long enough (overloaded machine): no verdict
